@@ -25,7 +25,7 @@ DEFAULT = {
 
 LABEL_VALUES = [["int", "5"], ["str", "x"], ["bool", True], ["float", "1.5"], ["bytes", "/w=="], ["str", "héllo"], ["int", "-9223372036854775808"]]
 TIME_REPRS = ["naive", "naive", "utc", "fixed:330", "fixed:-480", "pytz:Europe/Berlin", "zi:America/New_York", "pytz:Asia/Kathmandu", "zi:Australia/Lord_Howe",
-              "zi:Europe/Berlin", "fixeds:30", "fixeds:-3599"]
+              "zi:Europe/Berlin", "fixeds:30", "fixeds:-3599", "pytzraw:Europe/Moscow", "pytzraw:Asia/Kolkata"]
 
 
 def gen_start(r: Any) -> int:
